@@ -24,6 +24,7 @@ type params struct {
 	IDs   int  // number of concurrent packet ids (1 or 2)
 	Hold  bool // alphabet includes held backend acknowledgements
 	QOS   []int
+	Self  bool // the publisher subscribes to its own topic, never acknowledges deliveries, window 1 and queue capacity 1: its own queue fills up and the backend starts refusing its publishes
 }
 
 func init() {
@@ -70,7 +71,7 @@ func (s *world) onBrokerWrite(pkt packet.Generic) {
 		s.pubacks[p.ID]++
 		acked := 0
 		for _, e := range s.w.Rec.Calls("Publish", "") {
-			if e.Acked != 0 && s.tagID[e.Tag] == p.ID && s.tagQOS[e.Tag] == 1 {
+			if e.Acked != 0 && !e.Refused && s.tagID[e.Tag] == p.ID && s.tagQOS[e.Tag] == 1 {
 				acked++
 			}
 		}
@@ -84,7 +85,7 @@ func (s *world) onBrokerWrite(pkt packet.Generic) {
 		}
 		acked := false
 		for _, e := range s.w.Rec.Calls("Publish", "") {
-			if e.Tag == h.tag && e.Acked != 0 {
+			if e.Tag == h.tag && e.Acked != 0 && !e.Refused {
 				acked = true
 			}
 		}
@@ -166,7 +167,13 @@ func (s *world) check(ev string) {
 
 func history(x *explore.X, pr params) {
 	s := &world{x: x, pr: pr, open: map[packet.ID]*hs{}, done: map[string]packet.QOS{}, tagQOS: map[string]packet.QOS{}, tagID: map[string]packet.ID{}, pubacks: map[packet.ID]int{}, owed: map[packet.ID]int{}}
-	s.w = env.NewWorld(x, func(m *broker.MemoryBackend) { m.ClientParallelPublishes = 2 })
+	s.w = env.NewWorld(x, func(m *broker.MemoryBackend) {
+		m.ClientParallelPublishes = 2
+		if pr.Self {
+			m.SessionQueueSize = 1
+			m.ClientInflightMessages = 1
+		}
+	})
 	if pr.Hold {
 		s.w.Rec.HoldAcks = true
 	}
@@ -224,6 +231,9 @@ func history(x *explore.X, pr params) {
 				h.relOut = false
 			}
 			s.pub.Send(env.Connect("p", false, nil))
+			if pr.Self {
+				s.pub.Send(env.Subscribe(100, packet.Subscription{Topic: "t", QOS: 1}))
+			}
 		case "publish-new":
 			s.nmsg++
 			h := &hs{tag: fmt.Sprintf("m%d", s.nmsg), qos: packet.QOS(q)}
@@ -358,6 +368,7 @@ func run(r *report.Report) {
 			{"two-ids-sync", params{Depth: 7, IDs: 2, QOS: []int{1, 2}}, 0},
 			{"one-id-held", params{Depth: 7, IDs: 1, Hold: true, QOS: []int{1, 2}}, 0},
 			{"one-id-sync-reordered", params{Depth: 6, IDs: 1, QOS: []int{2}}, 1},
+			{"one-id-own-queue-full", params{Depth: 8, IDs: 1, QOS: []int{1, 2}, Self: true}, 0},
 		}
 	} else {
 		cfgs = []cfgT{
@@ -367,12 +378,13 @@ func run(r *report.Report) {
 			{"two-ids-held", params{Depth: 7, IDs: 2, Hold: true, QOS: []int{2}}, 0},
 			{"one-id-sync-reordered", params{Depth: 6, IDs: 1, QOS: []int{1, 2}}, 1},
 			{"one-id-held-reordered", params{Depth: 5, IDs: 1, Hold: true, QOS: []int{2}}, 2},
+			{"two-ids-own-queue-full", params{Depth: 8, IDs: 2, QOS: []int{1, 2}, Self: true}, 0},
 		}
 	}
 	for _, c := range cfgs {
 		js, _ := json.Marshal(c.p)
 		st := explore.Explore(explore.Config{Harness: "C07.hist", Params: string(js), Bound: c.bound, Workers: report.Workers(), Deadline: r.Deadline()})
-		r.AddExploration(c.name, "history", fmt.Sprintf("all histories of depth %d over the publisher/fault alphabet (%d ids, qos %v, held acks %v), delay bound %d", c.p.Depth, c.p.IDs, c.p.QOS, c.p.Hold, c.bound), st,
+		r.AddExploration(c.name, "history", fmt.Sprintf("all histories of depth %d over the publisher/fault alphabet (%d ids, qos %v, held acks %v, publisher's own queue filling up %v), delay bound %d", c.p.Depth, c.p.IDs, c.p.QOS, c.p.Hold, c.p.Self, c.bound), st,
 			"one execution = one history (root-to-leaf path of environment events), every prefix checked at quiescence; non-trivial = events that injected a fault or a retransmission or a late backend ack (counted)",
 			"fault", "retransmitted-publish", "retransmitted-pubrel", "late-ack")
 	}
